@@ -67,6 +67,10 @@ func (g *Gen) numLit() Lit {
 	}
 	// floats with a fraction keep their float spelling; integer-valued floats are written with ".0"? No: the
 	// lexer would read "5" as an int, so integer-valued floats are rendered with an exponent-free fraction
+	if g.R.P(0.1) {
+		// plain digits beyond the int64 range: a number all the same (a float), above every int64
+		return LFloat(9223372036854775808, "9223372036854775808")
+	}
 	f := core.Pick(g.R, []float64{0.5, 2.25, -0.5, 4.75, 6.5, 10.5})
 	return LFloat(f, strconv.FormatFloat(f, 'f', -1, 64))
 }
